@@ -369,11 +369,19 @@ func (i StringsInspector) sp(x any) (ss []string, pp [][]byte, ok bool) {
 	case []string:
 		ss = x.([]string)
 	case *[]string:
-		ss = *(x.(*[]string))
+		if p := x.(*[]string); p != nil {
+			ss = *p
+		} else {
+			ok = false
+		}
 	case [][]byte:
 		pp = x.([][]byte)
 	case *[][]byte:
-		pp = *(x.(*[][]byte))
+		if p := x.(*[][]byte); p != nil {
+			pp = *p
+		} else {
+			ok = false
+		}
 	default:
 		ok = false
 	}
